@@ -90,3 +90,37 @@ func runC04(c *CheckCtx) {
 	c.assumptions["A-ENV: every EnvType is a *env.Env built by the env constructors (validEnv); every MalFunc has non-nil Eval/GenEnv and a valid Env, every Func a non-nil Fn (data invariant, checked at every construction site in the functions under contract)"] = true
 	c.assumptions["stack exhaustion and non-termination are outside the property (statement)"] = true
 }
+
+// ---------------------------------------------------------------------------
+// C05: reading never panics or hangs
+
+var c05Funcs = []string{
+	"reader.tokenize", "(*reader.tokenReader).next", "(*reader.tokenReader).peek", "reader.read_atom", "reader.read_list", "reader.read_external",
+	"reader.read_vector", "reader.read_hash_map", "reader.read_set", "reader.read_placeholder", "reader.read_form", "reader.Read_str",
+	"lisp.READ", "lisp.READWithPreamble", "lisp.PRINT",
+	"printer.Pr_str", "printer.Pr_list", "printer.hashMapToString",
+	"types.NewHashMap", "types.NewSet", "(*types.Position).Copy", "(*types.Position).Close", "(types.Token).GetPosition",
+	"types.NewAnonymousCursorHere", "types.NewCursorFile",
+	"lisperror.GetPosition", "lisperror.NewLispError",
+}
+
+func init() {
+	register(&Property{
+		ID: "C05", Level: "proof", Technique: "contract-based deductive verification: no-panic obligations and decreases (termination) obligations for the tokenizer driver, the recursive-descent reader, READ/READWithPreamble and the printer, over an arbitrary token array under the assumed scanner token contract",
+		DesignRef: "DESIGN.md §4 C05",
+		Explain:   "reader functions are verified for every token array (any Value/Type satisfying the assumed scanner contract), nil or non-nil placeholder table and environment; termination by a lexicographic measure (remaining tokens, rank) on the mutual recursion and len(str) on the preamble loop",
+		Run:       runC05,
+	})
+}
+
+func runC05(c *CheckCtx) {
+	jobs := c.jobsFor(c05Funcs, func(f *ssa.Function) *Job {
+		return &Job{Fn: f, PanicMode: "obligation", TypeInv: true}
+	})
+	c.runJobs(jobs, func(o *Obligation) bool {
+		return strings.HasPrefix(o.Kind, "nopanic/") || o.Kind == "pre" || o.Kind == "typeinv" || o.Kind == "post" || strings.HasPrefix(o.Kind, "inv-") || o.Kind == "decreases"
+	})
+	c.assumptions["A-SCAN: github.com/jig/scanner v1.2.0 terminates on every input and produces tokens satisfying the Token invariant stated in reader/zz_contracts_verif.go (assumed, not proved)"] = true
+	c.assumptions["A-DATA: values handed to the printer are acyclic (termination of Pr_str on data is by structural recursion, not mechanised)"] = true
+	c.assumptions["regexp, strconv and strings library calls terminate and do not panic"] = true
+}
